@@ -1452,7 +1452,7 @@ impl<'a, 'b> InternalDelphiLogicalLineParser<'a, 'b> {
                 {
                     if matches!(
                         parser.get_token_type::<1>(),
-                        Some(TT::Op(OK::Comma | OK::Colon))
+                        Some(TT::Op(OK::Comma | OK::Colon | OK::Equal(_)))
                     ) {
                         // The next thing is not a directive, but a declaration
                         return OpResult::Break;
